@@ -109,7 +109,12 @@ def _b(o, n, depth, ind):
         o.nl(ind + 4); _b(o, k[2], depth, ind + 4)
         return
     if g in ("mtup", "mrec", "mopt", "mpart", "mlit", "mlist", "mlistd", "mopt3"):
-        o.w("match "); _e(o, k[0], depth, max(ind, o.col)); o.w(" with")
+        o.w("match ")
+        if k[0][0] == "none":
+            o.w("(let q : Option Int = None in q)")
+        else:
+            _e(o, k[0], depth, max(ind, o.col))
+        o.w(" with")
         d1, d2 = depth + 1, depth + 2
         if g == "mtup":
             alts = [("(v%d, v%d)" % (d1, d2), k[1], depth + 2)]
@@ -181,14 +186,18 @@ def _e(o, n, depth, ctx):
         o.w("(if "); E(k[0]); o.w(" then "); _e(o, k[1], depth, max(ctx, o.col)); o.w(" else "); _e(o, k[2], depth, max(ctx, o.col)); o.w(")"); return
     # a binding's right-hand side is a layout block which starts at its first token: everything inside it that
     # continues on later lines must be indented deeper than that column
+    # the body after `in` is an implicit block anchored at the column of the `let` keyword (layout.rs injects it so
+    # that a sequence of expressions ends up in the body): its continuation lines must stay to the right of it
     if g == "let":
+        lc = o.col + 1
         o.w("(let v%d = " % (depth + 1))
         c = max(ctx, o.col)
-        _e(o, k[0], depth, c); o.w(" in "); _e(o, k[1], depth + 1, ctx); o.w(")"); return
+        _e(o, k[0], depth, c); o.w(" in "); _e(o, k[1], depth + 1, max(ctx, lc)); o.w(")"); return
     if g == "letu":
+        lc = o.col + 1
         o.w("(let _ = ")
         c = max(ctx, o.col)
-        _e(o, k[0], depth, c); o.w(" in "); _e(o, k[1], depth, ctx); o.w(")"); return
+        _e(o, k[0], depth, c); o.w(" in "); _e(o, k[1], depth, max(ctx, lc)); o.w(")"); return
     if g in ("app1", "papp"):
         o.w("("); E(k[0]); o.w(" "); E(k[1]); o.w(")"); return
     if g == "app2":
@@ -250,7 +259,13 @@ def _e(o, n, depth, ctx):
     if g == "idx":
         o.w("(array.index "); E(k[0]); o.w(" "); E(k[1]); o.w(")"); return
     if g in ("mtup", "mrec", "mopt", "mpart", "mlit", "mlist", "mlistd", "mopt3"):
-        o.w("(match "); E(k[0]); o.w(" with")
+        o.w("(match ")
+        if k[0][0] == "none":
+            # a bare None as scrutinee leaves the element type open: comparisons on the bound variable would be ambiguous
+            o.w("(let q : Option Int = None in q)")
+        else:
+            E(k[0])
+        o.w(" with")
         ind = ctx + 4
         d1, d2 = depth + 1, depth + 2
         if g == "mtup":
@@ -276,6 +291,7 @@ def _e(o, n, depth, ctx):
         o.w(")"); return
     if g == "recf":
         f, nn, rr = depth + 1, depth + 2, depth + 3
+        lc = o.col + 1
         o.w("(rec let v%d v%d : Int -> Int = " % (f, nn))
         c = max(ctx, o.col)
         lt = "#Int<" if _PRIM[0] else "<"
@@ -283,10 +299,11 @@ def _e(o, n, depth, ctx):
         _e(o, k[0], depth + 2, max(c, o.col))
         o.w(" else ")
         c2 = max(c, o.col)
+        lc2 = o.col + 1
         o.w("(let v%d = v%d (v%d %s 1) in " % (rr, f, nn, "#Int-" if _PRIM[0] else "-"))
-        _e(o, k[1], depth + 3, c2)
+        _e(o, k[1], depth + 3, max(c2, lc2))
         o.w(") in ")
-        _e(o, k[2], depth + 1, ctx)
+        _e(o, k[2], depth + 1, max(ctx, lc))
         o.w(")"); return
     raise ValueError(g)
 
